@@ -2,7 +2,7 @@
 From Coq Require Import List ZArith NArith Bool Permutation Sorted.
 From Coq.Strings Require Import Byte.
 Import ListNotations.
-From SV Require Import Text G_flags C10_Model C10_Lemmas C10_Table C10_Reader.
+From SV Require Import Text G_flags C10_Model C10_Lemmas C10_Table C10_Reader C10_Extra.
 Local Open Scope Z_scope.
 
 (* P0 single_loc_spec: _parse_single_loc on the text of one location. n -> [n-1, n), a..b -> [a-1, b), '<' and '>' -> BEYOND_LEFT /
@@ -72,25 +72,22 @@ Print Assumptions C10_wrapped_loc.
 (* regression anchor, subsumed by C10_read_render below: the whole reader on rendered files equals the view (ids, upper-case residues, feature type /
    ordered locations / qualifiers / seqid, exclude semantics, read_fts = concatenated features) -- proved here only on a finite
    box of 324 files x 7 exclude tuples (with and without 'fts', 'seq', 'translation'); the general statement is covered by the correspondence run only *)
-Theorem C10_read_render_box_partial : forall excl rs, In excl box_excl -> In rs box_files ->
+Theorem C10_read_render_box : forall excl rs, In excl box_excl -> In rs box_files ->
   wf_C10 excl rs && val_eqb (run_text excl (render_gb rs)) (spec_val excl rs) = true.
 Proof. exact read_render_box. Qed.
-Print Assumptions C10_read_render_box_partial.
+Print Assumptions C10_read_render_box.
 
-(* P2 read_render, feature-table part, general (unbounded): from any reader state without a pending feature, the key line and
-   the location lines that render_feat writes (render_feat f = loc_lines (akey f) (wrap_at (print (aloc f)) (awrap f)) ++
-   qualifier lines), wrapped at any break points, followed by the flush that the next key line triggers, append exactly the feature
-   with that key and the meaning of the location ordered along its strand.  Qualifier lines, header and ORIGIN remain
-   box/correspondence-only. *)
-Theorem C10_feature_table_locs_partial : forall excl s key e w,
-  mem k_fts excl = false -> fttype s = None ->
-  key <> [] -> nows key = true -> (length key <= 15)%nat -> str_eqb (lower key) k_origin = false ->
-  wf_lexp e = true -> one_strand (sem e) = true ->
-  (forall f, render_feat f = loc_lines (akey f) (wrap_at (print (aloc f)) (awrap f)) ++ flat_map render_qual (aquals f))
-  /\ exists s1 s2, steps excl s (loc_lines key (wrap_at (print e) w)) = ROk s1 /\ flush s1 = ROk s2
-    /\ fts s2 = fts s ++ [mkfeat key (sort_locs (sem e)) [] None] /\ fttype s2 = None /\ mode s2 = mode s.
-Proof. exact (fun excl s key e w H1 H2 H3 H4 H5 H6 H7 H8 => conj render_feat_split (feature_table_locs excl s key e w H1 H2 H3 H4 H5 H6 H7 H8)). Qed.
-Print Assumptions C10_feature_table_locs_partial.
+(* P2 read_render, feature-table part, general (unbounded): from any reader state in the feature table whose pending feature (if
+   any) can be built (pend_view s F: flushing s gives the feature list F), the lines that render_feat writes for a well-formed
+   feature - key line, location wrapped at any break points, qualifier lines of every kind - leave the reader in a state whose
+   flush gives F plus exactly that feature (feat0 f: key as type, meaning of the location ordered along the strand, the qualifier
+   dict); nothing else of the state changes (hframe) *)
+Theorem C10_feature_table : forall excl f s F,
+  mem k_fts excl = false -> mode s = PFts -> pend_view s F -> wf_afeat f = true ->
+  Forall okline (render_feat f) /\ exists s2, steps_any excl s (render_feat f) = ROk s2 /\ mode s2 = PFts /\ hframe s s2
+    /\ pend_view s2 (F ++ [feat0 f]).
+Proof. exact (fun excl f s F He => feature_lines excl He f s F). Qed.
+Print Assumptions C10_feature_table.
 
 (* P2 read_render, GENERAL (unbounded): for every list of well-formed abstract records and every exclude tuple, the reader applied to
    the rendered GenBank text returns exactly the view -- one record per abstract record, in order; and read_fts returns the
@@ -140,6 +137,63 @@ Theorem C10_read_fts_agrees : forall excl rs, wf_C10 excl rs = true ->
 Proof. exact (fun excl rs W => conj (eq_trans (proj2 (read_render excl rs W)) (f_equal ROk (view_fts_agrees excl rs))) (proj1 (read_render excl rs W))). Qed.
 Print Assumptions C10_read_fts_agrees.
 
+(* the qualifier dict of a feature (fquals of the view), characterised completely: the value under a key is the one of the LAST
+   qualifier line with that key (quoted text with its lines concatenated, int of an unquoted digit string, unquoted word); the flags are
+   collected in file order in one list under 'misc'; the keys stand in the order of their FIRST use; with pairwise distinct keys this is
+   the plain listing view_quals *)
+Theorem C10_quals_dict : forall qs, forallb wf_qual qs = true ->
+  (forall k, str_eqb k k_misc = false -> aget k (quals_dict qs) = last_val k qs None)
+  /\ aget k_misc (quals_dict qs) = (match flag_names qs with [] => None | fl => Some (QL fl) end)
+  /\ map fst (quals_dict qs) = first_use (map dkey qs)
+  /\ (distinct (map qkey (filter nonflag qs)) = true -> quals_dict qs = view_quals qs (flag_names qs) false).
+Proof. exact quals_dict_spec. Qed.
+Print Assumptions C10_quals_dict.
+
+(* header fields as record metadata (rhdr of the view = meta._genbank): one entry per field name in lower case, a repeated field
+   replaces the value at the first position; the value is the text of the field with continuation lines joined by one blank (LOCUS:
+   its words joined by ", "); every sub-field wraps the value so far as {id: value so far, subfield: text}; REFERENCE is dropped.
+   The record id is the first word of the 'accession' entry - VERSION (or any other field) never contributes to the id *)
+Theorem C10_header_attrs :
+  (forall hs h, view_hdr (hs ++ [h]) = aset (lower (hk h)) (field_val h) (view_hdr hs))
+  /\ view_hdr [] = []
+  /\ (forall h, field_val h = fold_left sub_val (hsubs h) (HS (main_val h)))
+  /\ (forall h, main_val h = match hlines h with
+                             | [] => []
+                             | l :: r => join [sp] ((if str_eqb (lower (hk h)) k_locus then join (bs ", "%bs) (split_ws l) else l) :: r)
+                             end)
+  /\ (forall V p, sub_val V p = HA (aset (lower (fst p)) (HS (join [sp] (snd p))) [(k_id, V)]))
+  /\ (forall r, forallb wf_hfield (ahdr r) = true -> view_id r = id_of_hdr (view_hdr (ahdr r)))
+  /\ (forall excl r, rhdr (view_rec excl r) = adel k_reference (view_hdr (ahdr r))).
+Proof. exact header_attrs_spec. Qed.
+Print Assumptions C10_header_attrs.
+
+(* the location parser is total: on ANY text, with the fuel the reader model uses (text length + 1), _parse_locs returns a
+   non-empty list of locations or stops with ValueError or IndexError - the fuel never runs out, there is no other outcome;
+   the LocationTuple built from a non-empty list is a reordering of it or ValueError (both strands) *)
+Theorem C10_parse_total :
+  (forall s, (exists ls, ls <> [] /\ parse_locs_str s = ROk ls) \/ parse_locs_str s = RErr ValueError \/ parse_locs_str s = RErr IndexError)
+  /\ (forall ls, ls <> [] -> (exists lt, mk_loctuple ls = ROk lt /\ Permutation lt ls) \/ mk_loctuple ls = RErr ValueError).
+Proof. exact (conj parse_total loctuple_total). Qed.
+Print Assumptions C10_parse_total.
+
+(* outside the one-strand / ORIGIN domain the behaviour is proved as it is: when the first record that is not well-formed has
+   (well-formed header and, fts not excluded) a feature with locations on both strands, the reader stops with ValueError in that
+   record (LocationTuple rejects it when the feature is built, at the next key line or at ORIGIN); when it has no ORIGIN line but
+   features, the reader stops with AssertionError at '//' (the last feature is still pending); read_fts stops the same way; the
+   records before it are read normally but never returned by read / read_fts *)
+Theorem C10_read_errors : forall excl rs k, no_nl rs = true -> err_class excl rs = Some k ->
+  iter_genbank excl (render_gb rs) = RErr k /\ read_fts_genbank excl (render_gb rs) = RErr k.
+Proof. exact read_errors. Qed.
+Print Assumptions C10_read_errors.
+Theorem C10_err_class_spec : forall excl rs k, err_class excl rs = Some k ->
+  exists rs1 r rs2, rs = rs1 ++ r :: rs2 /\ forallb (wf_arec excl) rs1 = true /\ err_rec excl r = Some k
+    /\ mem k_fts excl = false /\ forallb wf_hfield (ahdr r) = true
+    /\ (k = ValueError /\ aorigin r = true /\ (exists fs1 f fs2, afts r = fs1 ++ f :: fs2 /\ forallb wf_afeat fs1 = true
+           /\ wf_afeat_pre f = true /\ one_strand (sem (aloc f)) = false /\ forallb wf_afeat_pre fs2 = true)
+        \/ k = AssertionError /\ aorigin r = false /\ afts r <> [] /\ forallb wf_afeat (afts r) = true).
+Proof. exact err_class_spec. Qed.
+Print Assumptions C10_err_class_spec.
+
 (* non-vacuity: a two-record file with a wrapped complement(join(1..5,<7..>10)), flags, '=' in a value and a multi-line
    translation is in the domain, reads to its view, and the view has the expected minus-strand locations *)
 Example C10_witness :
@@ -165,3 +219,16 @@ Example C10_witness_exclude_fts :
   /\ match iter_genbank [k_fts; k_seq] (render_gb ex_file) with ROk l => map (fun r => (rid r, rseq r, rfts r)) l | RErr _ => [] end
      = [(bs "AB000001"%bs, [], None); ([], [], None)].
 Proof. exact ex_exclude_fts. Qed.
+(* error classes: a join over both strands, and a record without ORIGIN that has a feature *)
+Example C10_witness_errors :
+  err_class [] ex_mixed = Some ValueError /\ no_nl ex_mixed = true /\ iter_genbank [] (render_gb ex_mixed) = RErr ValueError
+  /\ wf_C10 [k_fts] ex_mixed = true
+  /\ err_class [] ex_noorigin = Some AssertionError /\ no_nl ex_noorigin = true /\ read_fts_genbank [] (render_gb ex_noorigin) = RErr AssertionError
+  /\ wf_C10 [k_fts] ex_noorigin = true.
+Proof. exact ex_errors. Qed.
+(* repeated qualifier keys and a location wrapped inside a number and inside '..' *)
+Example C10_witness_quals :
+  quals_dict [QText (d "note") [d "a"]; QFlag (d "pseudo"); QNum (d "x") (d "5"); QText (d "note") [d "b"; d "c"]; QFlag (d "partial"); QNum (d "note") (d "3")]
+  = [(d "note", QI 3); (k_misc, QL [d "pseudo"; d "partial"]); (d "x", QI 5)]
+  /\ wrap_at (d "join(12..34,56)") [6; 3; 0; 1]%nat = [d "join(1"; d "2.."; d "34,56)"].
+Proof. exact (conj eq_refl eq_refl). Qed.
